@@ -244,6 +244,18 @@ impl SwarmDriver {
         self.replication_targets.clear();
     }
 
+    /// Let `secs` seconds pass for the replication throttles (instead of waiting): the time of the last periodic
+    /// replication and the per-target deadlines become that much older.
+    pub fn verif_age_replication_timers(&mut self, secs: u64) {
+        let d = std::time::Duration::from_secs(secs);
+        if let Some(t) = self.last_replication {
+            self.last_replication = Some(t.checked_sub(d).unwrap_or(t));
+        }
+        for deadline in self.replication_targets.values_mut() {
+            *deadline = deadline.checked_sub(d).unwrap_or(*deadline);
+        }
+    }
+
     pub fn verif_self_peer_id(&self) -> PeerId {
         self.self_peer_id
     }
